@@ -478,10 +478,11 @@ pub fn check_c09(tier: Tier) -> i32 {
   let run = Run::new("C09", tier, "fault_enumeration");
   let thorough = tier == Tier::Thorough;
   let mut cells = vec![];
+  let reserveds: Vec<u32> = if thorough { vec![0, 5, 8, 13, 40] } else { vec![0, 5] };
   for fl in Fl::ALL {
-    for reserved in [0u32, 5] {
+    for reserved in &reserveds {
       let mut c = Cfg::new(fl, Backend::File, true, 200 + reserved);
-      c.reserved = reserved;
+      c.reserved = *reserved;
       c.magic = 0x0102;
       cells.push(c);
     }
@@ -493,16 +494,17 @@ pub fn check_c09(tier: Tier) -> i32 {
     c.magic = 0x0102;
     c.file_offset = 4096;
     items.push((c, true, 0));
-    if thorough {
-      items.push((c, false, 0));
-      items.push((c, true, 1));
-    }
+    items.push((c, false, 0));
+    items.push((c, true, 1));
   }
+  // both tiers use the full breadth of capacity options and expectations per mutated byte; the tiers differ in
+  // the reserved sizes and the depth of the read-only sessions
+  let ro_depth = if thorough { 4 } else { 3 };
   let go = |(c, sync, part): &(Cfg, bool, u8)| match (part, sync) {
-    (0, true) => c09_files::<sync::Arena>(&run, c, thorough),
-    (0, false) => c09_files::<unsync::Arena>(&run, c, thorough),
-    (_, true) => c09_readonly::<sync::Arena>(&run, c, if thorough { 3 } else { 2 }),
-    (_, false) => c09_readonly::<unsync::Arena>(&run, c, if thorough { 3 } else { 2 }),
+    (0, true) => c09_files::<sync::Arena>(&run, c, true),
+    (0, false) => c09_files::<unsync::Arena>(&run, c, true),
+    (_, true) => c09_readonly::<sync::Arena>(&run, c, ro_depth),
+    (_, false) => c09_readonly::<unsync::Arena>(&run, c, ro_depth),
   };
   // every open maps a file: spread over single-threaded child processes (shard.rs)
   if crate::shard::child().is_some() {
@@ -517,8 +519,8 @@ pub fn check_c09(tier: Tier) -> i32 {
     return code;
   }
   run.sample(|| json!({"file": "valid Optimistic arena file (capacity 200): live 24-byte block, one free segment, cursor rewound so that non-zero stale bytes lie above it", "mutant": "identification byte +4 (magic version, low byte) set to 0x03", "open": "map_mut with capacity = same, expecting the stored free-list kind and magic version", "expected": "refused, file bytes unchanged"}));
-  run.rule("6 valid files (3 free-list kinds x reserved {0,5}), plus 3 whose arena starts at file offset 4096, x [each of the 8 identification bytes x 255 other values] + every truncation length 0..=prefix+8 + arbitrary files of length 0..=64 (3 fills) + garbage cursors, x 4 open variants x capacity option x expected (free list, magic version); every refused open is compared byte for byte with the file before; read-only sessions: every sequence of <= 2 (3) calls of the safe mutating API on map / map_copy_read_only arenas; evaluations = opens + sessions");
-  run.set("bounds", json!({"files": 6, "readonly_session_depth": if thorough { 3 } else { 2 }, "capacity_options": ["absent", "same", "+64"]}));
+  run.rule("valid files (3 free-list kinds x reserved {0,5}; thorough {0,5,8,13,40}), plus 3 whose arena starts at file offset 4096, x [each of the 8 identification bytes x 255 other values] + every truncation length 0..=prefix+8 + arbitrary files of length 0..=64 (3 fills) + garbage cursors, x 4 open variants x capacity option x expected (free list, magic version); every refused open is compared byte for byte with the file before; read-only sessions: every sequence of <= 3 (thorough: 4) calls of the safe mutating API on map / map_copy_read_only arenas; evaluations = opens + sessions");
+  run.set("bounds", json!({"files": cells.len() + 3, "readonly_session_depth": ro_depth, "capacity_options": ["absent", "same", "+64"]}));
   run.finish()
 }
 
@@ -874,6 +876,12 @@ pub fn check_c05(tier: Tier) -> i32 {
       items.push((c, sync, depth_off));
     }
   }
+  // thorough: the plain cells once more at depth 4 (with the rotating four variants instead of all twelve)
+  let mut items: Vec<(Cfg, bool, usize, bool)> = items.into_iter().map(|(c, s, d)| (c, s, d, thorough)).collect();
+  if thorough {
+    let deep: Vec<(Cfg, bool, usize, bool)> = items.iter().filter(|(c, ..)| c.reserved == 0 && c.file_offset == 0).map(|(c, s, _, _)| (*c, *s, 4, false)).collect();
+    items.extend(deep);
+  }
   let mut work = vec![];
   for (ci, _) in items.iter().enumerate() {
     for start in 0..3 {
@@ -891,17 +899,17 @@ pub fn check_c05(tier: Tier) -> i32 {
   } else {
     let work: Vec<(usize, usize, usize)> = work.into_iter().enumerate().filter(|(i, _)| crate::shard::mine(*i)).map(|(_, w)| w).collect();
     par_for_each(&work, |_, &(ci, start, first)| {
-      let (c, sync, depth) = &items[ci];
+      let (c, sync, depth, all_variants) = &items[ci];
       if *sync {
-        c05_cell::<sync::Arena>(&run, c, &alphabet, *depth, thorough, start, first)
+        c05_cell::<sync::Arena>(&run, c, &alphabet, *depth, *all_variants, start, first)
       } else {
-        c05_cell::<unsync::Arena>(&run, c, &alphabet, *depth, thorough, start, first)
+        c05_cell::<unsync::Arena>(&run, c, &alphabet, *depth, *all_variants, start, first)
       }
     });
     return crate::shard::finish_child(&run);
   }
   run.sample(|| json!({"cfg": "sync Pessimistic file arena, reserved 5", "start": "full-2eq", "history": "B(7) D0 | close (no flush) + map_mut without capacity | B(40)", "checked": "state tuple, free list, bytes below the cursor, then the continuation B(40) on the reopened arena vs. on a twin that was never closed, shadow heap carried across the reopen"}));
-  run.rule("every history of depth 3 over the stated alphabet from 3 start states, cut at every position 0..=3 by close (with / without flush) + reopen; quick: 4 reopen variants per (history, cut) rotating over the 4 modes x 3 capacity options x create flag, thorough: all 12 mode x capacity variants; writable reopens continue the history against a never-closed twin (per-step observation equality) under the shadow / zero / policy / accounting oracles; read-only reopens must refuse allocation and leave the file untouched; 6 more cells place the arena at file offset 4096 with foreign bytes in front of and behind its window, which every reopen must leave alone; evaluations = reopens");
+  run.rule("every history of depth 3 over the stated alphabet from 3 start states, cut at every position 0..=3 by close (with / without flush) + reopen; quick: 4 reopen variants per (history, cut) rotating over the 4 modes x 3 capacity options x create flag, thorough: all 24 mode x capacity variants, and the plain cells again at depth 4 with four variants; writable reopens continue the history against a never-closed twin (per-step observation equality) under the shadow / zero / policy / accounting oracles; read-only reopens must refuse allocation and leave the file untouched; 6 more cells place the arena at file offset 4096 with foreign bytes in front of and behind its window, which every reopen must leave alone; evaluations = reopens");
   run.set("bounds", json!({"depth": depth, "depth_of_offset_cells": depth_off, "alphabet": alphabet.iter().map(|o| o.short()).collect::<Vec<_>>(), "cells": items.len()}));
   run.finish()
 }
